@@ -247,7 +247,8 @@ def apply_string_level(url, name, draw):
     if name == "control-chars":
         n = draw(st.integers(1, 3))
         for _ in range(n):
-            pos = draw(st.integers(0, len(url)))
+            # a third of the time at the very edge, where the order of strip() and control-character removal shows
+            pos = draw(st.sampled_from([0, len(url)])) if draw(st.integers(0, 2)) == 0 else draw(st.integers(0, len(url)))
             url = url[:pos] + draw(st.sampled_from(CONTROL_CHARS)) + url[pos:]
         return url
     raise KeyError(name)
